@@ -343,7 +343,7 @@ PROPS["C20"] = dict(
     rule="all sequences of length <= locklen over {open, close, second open, open(error_if_exists), open(other comparator), foreign-process lock attempt}: the foreign process gets the lock iff no handle is open; ldb_backup after every history up to the given length over 7 ops (background work drained, and with the last operation's flush still pending) + 3 scripted multi-level layouts: the copy opens independently and equals the source model at that moment, later writes/compactions of the source leave it unchanged, the source stays right; ldb_copy of the closed database likewise; ldb_destroy leaves exactly 6 foreign entries; refused opens leave every database file byte-identical",
     assumptions=E2_ASSUME[:3] + ["fcntl(F_SETLK) is modelled with POSIX semantics (per process, closing any descriptor of the file drops the lock); the foreign process is simulated by the VFS"],
     stages=[dict(name="life", driver="life", flavour="asan",
-                 quick=["--cfgs", "B1", "--locklen", "5", "--len", "2"],
+                 quick=["--cfgs", "B1;B1,reuse=1", "--locklen", "5", "--len", "2"],
                  thorough=["--cfgs", "B1;B1,reuse=1;B2", "--locklen", "6", "--len", "3"])],
 )
 ENGINES["life"] = "E2: lifecycle sequence enumeration (locking, backup/copy, destroy, refused opens)"
@@ -489,3 +489,19 @@ PROPS["C05"]["stages"].append(dict(name="mc-crash", driver="mc", flavour="asan",
 PROPS["C05"]["rule"] += ("; concurrent stage: every journal index of every schedule (bound 2) of a writer switching the memtable during a compaction (D14) / a flush in flight (D1f) is a crash point: "
                          "recovery of each image succeeds and never recreates a write-ahead log that the image holds (the number of a log still to be replayed is not handed out again)")
 PROPS["C05"]["assumptions"] = PROPS["C05"]["assumptions"] + E1_ASSUME[:3]
+
+# Environment-model conformance: the in-memory POSIX model of harness/vfs.c (on which every VFS-based check decides its
+# property) replayed in lock-step against the real kernel (tmpfs directory under the run's scratch directory)
+ENGINES["conform"] = "conformance of the environment model: file-system call sequences, lcdb histories and lock sequences executed on harness/vfs.c and on the kernel side by side, every observation compared"
+PROPS["C20"]["stages"].append(dict(name="conform-lock", driver="conform", flavour="asan", args=["--parts", "lock"], weight=0.3,
+                                   quick=["--cfgs", "B1", "--locklen", "4"], thorough=["--cfgs", "B1;B1,reuse=1", "--locklen", "5"]))
+PROPS["C20"]["rule"] += ("; real-kernel stage: all lock sequences (<= 4 -> 5 steps, ending in an observation) on a real tmpfs directory where the 'other process' is a freshly exec'ed process calling the real ldb_open: "
+                         "it opens the database iff this process holds no handle (kernel fcntl semantics, not the model's); the model's verdict for the same sequence is compared step by step")
+PROPS["C20"]["assumptions"] = [a.replace("the foreign process is simulated by the VFS", "the foreign process is simulated by the VFS in stage life and is a real exec'ed process on the real kernel in stage conform-lock")
+                               for a in PROPS["C20"]["assumptions"]]
+PROPS["C01"]["stages"].append(dict(name="conform-env", driver="conform", flavour="asan", args=["--parts", "sys,hist"], weight=0.2,
+                                   quick=["--cfgs", "B1;B1,mmap=0;B1,reuse=1", "--syslen", "4", "--len", "2"],
+                                   thorough=["--cfgs", "B1;B1,mmap=0;B1,reuse=1;B1,snappy=1,bloom=1;B2", "--syslen", "5", "--len", "3"]))
+PROPS["C01"]["rule"] += ("; environment-conformance stage (binds the file-system model under all VFS-based checks to the kernel): ALL sequences of <= 4 -> 5 calls over 22 file-system calls "
+                         "(open variants, write, read, fsync, close, rename, unlink, link, mkdir, rmdir, access, stat, lseek) give the same return values, errno and final tree on harness/vfs.c and on tmpfs; "
+                         "ALL lcdb histories of <= 2 -> 3 operations give the same statuses, reads and byte-identical database files on both")
